@@ -175,13 +175,19 @@ def make_env():
     rl = tlv.http_config(key.publickey().export_key("DER"), host_header="Host: first.example\r\n")
     repeated = tlv.block(rl[:2] + [tlv.short(5, 10), tlv.integer(3, 99)] + rl[2:6] + [tlv.ptr(26, b"PUT", 16)] + rl[6:]
                          + [tlv.short(5, 25), tlv.ptr(8, b"second.example,/two", 256), tlv.integer(3, 1234), tlv.ptr(54, b"Host: second.example\r\n", 128), tlv.ptr(26, b"GET", 16)])
-    blocks = {"synthetic": block, "minimal": minimal, "empty_recover": empty_recover, "legacy": legacy, "repeated": repeated}
+    # a fifth shape: a value its pretty-printer cannot render (a module name of the execute list that is not UTF-8): every use that looks at the
+    # pretty views fails - and fails the same way however often and in whatever order it is tried
+    unrenderable = tlv.block(tlv.http_config(key.publickey().export_key("DER"), extra=[tlv.ptr(51, tlv.execute_list([1, (6, 16, b"kernel32-\xfc.dll", b"LoadLibraryA"), 4]), 128)]))
+    blocks = {"synthetic": block, "minimal": minimal, "empty_recover": empty_recover, "legacy": legacy, "repeated": repeated, "unrenderable": unrenderable}
     env = {"key": key, "blocks": blocks}
     env["get_request"] = {}
     for nm, blk in blocks.items():
-        d = c2.C2Http(beacon.BeaconConfig(blk), aes_key=b"A" * 16, hmac_key=b"H" * 16)
-        random.seed(5)
-        env["get_request"][nm] = d.transform_get.transform(c2.C2Data(metadata=b"\x01" * 20), request=c2.HttpRequest(method=b"GET", uri=b"/get", params={}, headers={}, body=b""))
+        try:
+            d = c2.C2Http(beacon.BeaconConfig(blk), aes_key=b"A" * 16, hmac_key=b"H" * 16)
+            random.seed(5)
+            env["get_request"][nm] = d.transform_get.transform(c2.C2Data(metadata=b"\x01" * 20), request=c2.HttpRequest(method=b"GET", uri=b"/get", params={}, headers={}, body=b""))
+        except Exception:  # noqa: BLE001  (the unrenderable configuration: the use that needs the request fails, every time)
+            env["get_request"][nm] = None
     env["base_kw"] = {"base_uri": b"/get"} if "base_uri" in inspect.signature(c2.HttpDataTransform.recover).parameters else {}
     # recorded session per configuration: a check-in of the library's own client and a task response for it
     import struct
@@ -230,6 +236,13 @@ def one(hist):
                 before = snapshot(cfg) if mode == "A" else None
                 o = core.guarded(do_use, u, cfg, env, seconds=60)
                 twin = core.guarded(do_use, u, beacon.BeaconConfig(block), env, seconds=60)
+                if which == "unrenderable" and (o[0] != "ok" or twin[0] != "ok"):
+                    # for this configuration failing is the answer: the same failure on the used object, on a fresh one and in a pristine process
+                    ref_o = _G.get("ref_outcome", {}).get((which, u))
+                    if (o[0], o[1]) != (twin[0], twin[1]) or (ref_o is not None and (o[0], o[1]) != ref_o and "ok" not in (o[0], ref_o[0])) or (ref_o is not None and (o[0] == "ok") != (ref_o[0] == "ok")):
+                        out.append({"kind": "history_dependent_result", "use": u, "step": i, "mode": mode, "cfg": which, "earlier": list(hist[:i]), "got": str(o)[:120], "twin": str(twin)[:120]})
+                        break
+                    continue
                 if o[0] != "ok" or twin[0] != "ok":
                     out.append({"kind": "exception", "use": u, "step": i, "mode": mode, "cfg": which, "got": str(o)[:200], "twin": str(twin)[:200]})
                     break
@@ -312,6 +325,7 @@ def run(ctx):
     with mp.get_context("fork").Pool(14, maxtasksperchild=1) as pool:
         refs = pool.map(pristine, pairs, chunksize=1)
     _G["ref"] = {k: v[1] for k, v in zip(pairs, refs) if v[0] == "ok"}
+    _G["ref_outcome"] = {k: (v[0], v[1]) for k, v in zip(pairs, refs) if v[0] != "ok"}
     if len(_G["ref"]) < len(pairs) // 2:
         raise core.MachineryError(f"only {len(_G['ref'])} of {len(pairs)} pristine reference results could be computed: {[v for v in refs if v[0] != 'ok'][:2]}")
     with mp.get_context("fork").Pool(14) as pool:
